@@ -59,6 +59,8 @@ class ExprMixin:
             return target in self.repo.cls(cls)["mro"] or ("builtins." + target) in self.repo.cls(cls)["mro"]
         if cls in PY_EXC and target in PY_EXC:
             return issubclass(PY_EXC[cls], PY_EXC[target])
+        if cls in PY_EXC and self.repo.has_class(target):
+            return False            # a builtin exception class is never a subclass of a class defined in the repository
         if cls.startswith("ast.") and target.startswith("ast."):
             a, b = getattr(ast, cls[4:], None), getattr(ast, target[4:], None)
             if a and b:
